@@ -4,9 +4,19 @@
    `c03 lean <nums…>`   → the item as a Lean term (one line)
    `c03 exec <fuel> <oracle,…> <nums…>` → concrete run of the token semantics from
         `initC` (all parameter variants 0): `done <var>` | `fail <err>` | `running <label>`
-   The numeric grammar is documented in `src/verif_hooks/c03.rs`. -/
+   The numeric grammar is documented in `src/verif_hooks/c03.rs`.
+
+   `c03 glue-check <nums…>` (grammar in `harness/src/c03/glue.rs`): run the drop / clone glue
+        model — the loops as extracted from the current source — on the last declared type with
+        every enum inside in variant `sel mod #variants`, `sel = 0..3`, against the reference placement:
+        `ok <types> <runs>` | `mismatch <decl> <sel> drop=<addr:id,…> leaves=<addr:id,…> clone=<src>dst:id,…>` | `bad-dump`
+   `c03 glue-shallow <nums…>` → per declared type the events of its own drop function, one
+        group per variant (nested generated functions not inlined): `D<decl> v<k>: off/kind …`, and of
+        its clone function: `C<decl> v<k>: v<src>>r<dst>/kind | v<src>>r<dst>#<memcpy size> …` -/
 import Driver.Util
 import RotoV.Model.Mir
+import RotoV.Model.Glue
+import RotoV.Generated.GlueLoops
 
 namespace Driver.C03
 open RotoV.Mir
@@ -172,8 +182,179 @@ def detail (it : Item) (l : Nat) (reason : String) (a other : AState) : String :
           | .error _ => let v := culprit it a i; fmt v (showSt (aget a v))
       go a b.instrs
 
+/-! ### drop / clone glue -/
+
+open RotoV.Glue in
+def gtysOfList : List GTy → GTys
+  | [] => .nil
+  | t :: ts => .cons t (gtysOfList ts)
+
+open RotoV.Glue in
+def gvarsOfList : List GTys → GVars
+  | [] => .nil
+  | v :: vs => .cons v (gvarsOfList vs)
+
+open RotoV.Glue in
+/-- `ty := 0 size align droppable | 1 declIndex` (leaf id = size * 2 + droppable, enough to tell
+    the leaves of one run apart) -/
+def pGTy (decls : Array GTy) : P GTy := do
+  match (← nat) with
+  | 0 => do
+    let s ← nat; let a ← nat; let d ← nat
+    pure (.leaf (s * 2 + d) s a (d != 0))
+  | 1 => do
+    let i ← nat
+    match decls[i]? with
+    | some t => pure t
+    | none => failure
+  | _ => failure
+
+open RotoV.Glue in
+partial def pDecls (n : Nat) (acc : Array GTy) : P (Array GTy) :=
+  if n = 0 then pure acc else do
+    match (← nat) with
+    | 0 => do
+      let fs ← counted (pGTy acc)
+      pDecls (n - 1) (acc.push (.record (gtysOfList fs)))
+    | 1 => do
+      let vs ← counted (counted (pGTy acc))
+      pDecls (n - 1) (acc.push (.enum (gvarsOfList (vs.map gtysOfList))))
+    | _ => failure
+
+open RotoV.Glue in
+def parseDecls (ws : List String) : Option (Array GTy) := do
+  let ns ← ws.mapM String.toNat?
+  match (do let n ← nat; pDecls n #[]).run ns with
+  | some (ds, []) => some ds
+  | _ => none
+
+open RotoV.Glue in
+def gtysToList : GTys → List GTy
+  | .nil => []
+  | .cons t ts => t :: gtysToList ts
+
+open RotoV.Glue in
+def gvarsToList : GVars → List GTys
+  | .nil => []
+  | .cons v vs => v :: gvarsToList vs
+
+instance : Inhabited RotoV.Glue.GTy := ⟨.leaf 0 0 1 false⟩
+
+open RotoV.Glue in
+mutual
+/-- the discriminant bytes of the value of type `t` at `a` in which every enum takes variant
+    `sel mod #variants` (reference placement) -/
+partial def discs (sel : Nat) : GTy → Nat → List (Nat × Nat)
+  | .leaf _ _ _ _, _ => []
+  | .record fs, a => discsFields sel a (gtysToList fs) Builder.new
+  | .enum vs, a =>
+    let vl := gvarsToList vs
+    if vl.isEmpty then [] else
+      let k := sel % vl.length
+      (a, k) :: discsFields sel a (gtysToList (vl.getD k .nil)) (Builder.new.add tagLayout)
+partial def discsFields (sel a : Nat) : List GTy → Builder → List (Nat × Nat)
+  | [], _ => []
+  | t :: ts, b => discs sel t (a + b.addOff (layoutOf t)) ++ discsFields sel a ts (b.add (layoutOf t))
+end
+
+def memOf (ds : List (Nat × Nat)) : Nat → Nat := fun a =>
+  match ds.find? (fun p => p.1 = a) with
+  | some p => p.2
+  | none => 0
+
+open RotoV.Glue in
+def showEvs (es : List Ev) : String :=
+  ",".intercalate (es.map fun
+    | .drop a id => s!"{a}:{id}"
+    | .clone s d id => s!"{s}>{d}:{id}"
+    | .copy s d n => s!"copy{s}>{d}#{n}"
+    | .tag s d => s!"tag{s}>{d}"
+    | .stuck => "stuck")
+
+open RotoV.Glue RotoV.Gen.GlueLoops in
+def glueCheck (ds : Array GTy) : String := Id.run do
+  let mut runs := 0
+  -- the value the program builds is one of the last declared type (the others occur inside it)
+  for i in [ds.size - 1:ds.size] do
+    let t := ds[i]!
+    for sel in [0:4] do
+      -- the source at 4096, the copy at 1048576 with the same discriminants
+      let (s, d) := (4096, 1048576)
+      let dsS := discs sel t s
+      let ρ := memOf (dsS ++ dsS.map (fun p => (p.1 - s + d, p.2)))
+      let want := leaves ρ t s
+      let dropEv := dropTy prog ρ t s
+      let cl := cloneTy prog ρ t s d
+      let okDrop := dropEv == want.map (fun p => Ev.drop p.1 p.2)
+      let okClone := cloned cl == leaves2 ρ t s d && cl.all (fun e => !e.isStuck)
+        && dropped (dropTy prog ρ t d) == (cloned cl).map (fun x => (x.2.1, x.2.2))
+      runs := runs + 1
+      if !(okDrop && okClone) then
+        let rel (es : List Ev) := es.map fun
+          | .drop a id => Ev.drop (a - s) id
+          | .clone x y id => Ev.clone (x - s) (y - d) id
+          | e => e
+        return s!"mismatch {i} {sel} drop={showEvs (rel dropEv)} leaves={showEvs (rel (want.map (fun p => Ev.drop p.1 p.2)))} clone={showEvs (rel (cl.filter (fun e => match e with | .clone _ _ _ => true | .stuck => true | _ => false)))}"
+  return s!"ok {ds.size} {runs}"
+
+open RotoV.Glue RotoV.Gen.GlueLoops in
+/-- the drop function of one declared type on its own: per variant the `(offset, kind)` of
+    what it emits, `r` = runtime drop function, `g` = call of a generated drop function -/
+def glueShallow (ds : Array GTy) : String :=
+  let one (t : GTy) (a : Nat) : List Ev :=
+    match t with
+    | .leaf _ _ _ dr => if dr then [.drop a 0] else []
+    | _ => [.drop a 1]
+  let fields (steps : List Step) (bound : Bool) (fs : List GTy) (b0 : Builder) : String :=
+    let rec go (fs : List GTy) (b : Builder) (acc : List Ev) : List Ev :=
+      match fs with
+      | [] => acc
+      | t :: ts =>
+        let s := runSteps (layoutOf t) (needsDrop t) 0 0
+          (fun p => if needsDrop t then one t p else []) (fun _ _ => [.stuck])
+          steps (Iter.start b (layoutOf t) bound)
+        go ts s.b (acc ++ s.out)
+    " ".intercalate ((go fs b0 []).map fun
+      | .drop a k => s!"{a}/{if k = 0 then "r" else "g"}"
+      | _ => "stuck")
+  -- the clone function: source addresses from 0 (`val`), destination from `R` (`$return`)
+  let R := 1000000
+  let addr (a : Nat) : String := if a ≥ R then s!"r{a - R}" else s!"v{a}"
+  let cfields (steps : List Step) (bound : Bool) (fs : List GTy) (b0 : Builder) : String :=
+    let rec cgo (fs : List GTy) (b : Builder) (acc : List Ev) : List Ev :=
+      match fs with
+      | [] => acc
+      | t :: ts =>
+        let s := runSteps (layoutOf t) (needsDrop t) 0 R (fun _ => [.stuck])
+          (fun p q => if needsDrop t then
+              (match t with | .leaf _ _ _ _ => [.clone p q 0] | _ => [.clone p q 1])
+            else [.copy p q (layoutOf t).size])
+          steps (Iter.start b (layoutOf t) bound)
+        cgo ts s.b (acc ++ s.out)
+    " ".intercalate ((cgo fs b0 []).map fun
+      | .clone p q k => s!"{addr p}>{addr q}/{if k = 0 then "r" else "g"}"
+      | .copy p q n => s!"{addr p}>{addr q}#{n}"
+      | _ => "stuck")
+  " ; ".intercalate ((List.range ds.size).map fun i =>
+    match ds[i]! with
+    | .record fs =>
+      s!"D{i} v0: {fields prog.dropRecord false (gtysToList fs) Builder.new} ; C{i} v0: {cfields prog.cloneRecord false (gtysToList fs) Builder.new}"
+    | .enum vs =>
+      let vl := gvarsToList vs
+      " ; ".intercalate ((List.range vl.length).map fun k =>
+        s!"D{i} v{k}: {fields prog.dropEnum true (gtysToList (vl.getD k .nil)) (runPre prog.dropEnumPre Builder.new)} ; C{i} v{k}: {cfields prog.cloneEnum true (gtysToList (vl.getD k .nil)) (runPre prog.cloneEnumPre Builder.new)}")
+    | _ => s!"D{i} leaf")
+
 def handle (args : List String) : String :=
   match args with
+  | "glue-check" :: ws =>
+    match parseDecls ws with
+    | none => "bad-dump"
+    | some ds => glueCheck ds
+  | "glue-shallow" :: ws =>
+    match parseDecls ws with
+    | none => "bad-dump"
+    | some ds => glueShallow ds
   | "check" :: ws =>
     match parseItem ws with
     | none => "bad-dump"
